@@ -163,7 +163,8 @@ def main():
     out = os.path.join(VERIF, "seeded", name)
     os.makedirs(out, exist_ok=True)
     open(os.path.join(out, "patch.diff"), "w").write(newpatch if ok else open(patch).read())
-    shutil.copy(demo, os.path.join(out, "demo_test.go"))
+    if os.path.abspath(demo) != os.path.abspath(os.path.join(out, "demo_test.go")):
+        shutil.copy(demo, os.path.join(out, "demo_test.go"))
     open(os.path.join(out, "notes.md"), "w").write(notes)
     meta["needs_to_manifest"] = opts.get("--needs", "see notes.md")
     json.dump(meta, open(os.path.join(out, "meta.json"), "w"), indent=1)
